@@ -132,6 +132,9 @@ class Trace:
         return self.of("return")
 
 
+ALL_TRACES = []  # every trace produced in this process since the last Ctx was created (generic rules walk them)
+
+
 class Evaluator:
     MAX_DEPTH = 14
     MAX_REENTRY = 2
@@ -172,6 +175,7 @@ class Evaluator:
             T.NONNULL.update(saved)
         self.trace.final = st2
         self.trace.retval = val
+        ALL_TRACES.append(self.trace)
         return self.trace
 
     # --------------------------------------------------------------- events
@@ -248,9 +252,9 @@ class Evaluator:
         if cur is not None:
             exits.append((T.TRUE, cur, T.NONE))
         del self.pc[fr.pc_base:]
-        self.emit("exit", node or fi.node, callee=fi.qualname, fi=fi)
-        self.frames.pop()
         if not exits:
+            self.emit("exit", node or fi.node, callee=fi.qualname, fi=fi, value=None)
+            self.frames.pop()
             return atom(("opaque", "noreturn", fi.qualname)), None
         # fold: ite(c1, v1, ite(c2, v2, ... last))
         cond, mst, mval = exits[-1]
@@ -258,6 +262,8 @@ class Evaluator:
         for c, s, v in reversed(exits[:-1]):
             mval = T.mk_ite(c, v, mval)
             mattrs = self._merge_maps(c, s.attrs, mattrs)
+        self.emit("exit", node or fi.node, callee=fi.qualname, fi=fi, value=mval)
+        self.frames.pop()
         out = State(mattrs, st.locs)
         if entry:
             out = State(mattrs, exits[-1][1].locs)
@@ -359,8 +365,10 @@ class Evaluator:
             return st
         if isinstance(s, ast.Break):
             self._loop_flags[-1]["break"] = True
+            self.emit("break", s, locs=dict(st.locs), attrs=dict(st.attrs))
             return None
         if isinstance(s, ast.Continue):
+            self.emit("continue", s, locs=dict(st.locs), attrs=dict(st.attrs))
             return None
         if isinstance(s, ast.Assert):
             self.ev(s.test, st)
@@ -744,7 +752,38 @@ class Evaluator:
             return atom(("global", mi.name + "." + name))
         if name in mi.globals:
             return atom(("global", mi.name + "." + name))
+        import builtins as _b
+        if not hasattr(_b, name) and not self._enclosing_has(name):
+            # neither a local, an enclosing-scope name, a module-level name nor a builtin: NameError at run time
+            v = atom(("undef", name))
+            self.emit("undefread", node, name=name, value=v)
+            return v
         return atom(("global", "builtins." + name))
+
+    def _enclosing_has(self, name):
+        """Name bound in a lexically enclosing function (closures / nested helpers)."""
+        fi = self.frames[-1].func
+        qn = fi.qualname
+        while "." in qn:
+            qn = qn.rsplit(".", 1)[0]
+            outer = self._find_closure_owner(qn)
+            if outer is not None and (name in _local_names(outer) or name in [a.arg for a in outer.node.args.args + outer.node.args.kwonlyargs]):
+                return True
+        return False
+
+    def _find_closure_owner(self, qualname):
+        for mi in self.prog.modules.values():
+            for f in mi.functions.values():
+                if f.qualname == qualname:
+                    return f
+            for ci in mi.classes.values():
+                for f in ci.methods.values():
+                    if f.qualname == qualname:
+                        return f
+                    for g in getattr(f, "nested", {}).values():
+                        if g.qualname == qualname:
+                            return g
+        return None
 
     def ev_Attribute(self, e, st):
         if self.is_self(e.value, st) and self.recv is not None:
@@ -834,6 +873,12 @@ class Evaluator:
                     return self.mk_sub(a[1], idx)
             if a[0] == "appended" and idx.is_const() and idx.const_value() == -1:
                 return a[2]
+            if a[0] == "call" and a[1] == "numpy.array" and len(a[2]) == 1 and not a[3] and idx.is_const():
+                # element of an array literal built from a flat list of scalars
+                inner = a[2][0].single_atom()
+                if inner is not None and inner[0] in ("list", "tuple") and not any(
+                        (x.single_atom() or ("",))[0] in ("list", "tuple") for x in inner[1]):
+                    return self.mk_sub(a[2][0], idx)
             if a[0] == "ite":
                 return T.mk_ite(a[1], self.mk_sub(a[2], idx), self.mk_sub(a[3], idx))
         return atom(("sub", base, idx))
